@@ -14,15 +14,21 @@ EXTENDS EigWrap, TraceLib
 VARIABLES l, dv, why
 tvars == <<st, l, dv, why>>
 
-DevOrder == <<KF_C05_NonPositiveTail, KF_C05_DenseNumExceedsSize, KF_C05_FallbackNumExceedsSize,
-              KF_C05_PanelNumNotCapped, KF_C05_ConeCylBucklingMode, KF_C05_LoadOnStiffnessless, KF_C06_RoundedSort, KF_C06_SparseNumExceedsSize,
-              KF_C06_ReducedDofScatter, KF_C06_DenseColumnSum, KF_C06_SingularMassModes>>
+(* deviation sets tried in this order after the literal run: each listed deviation alone, then the one pair of
+   independent findings that can show in the same call (close frequencies sorted by rounded keys AND unpurified
+   modes of a singular mass matrix); a pair is reported as both findings *)
+DevOrder == <<{KF_C05_NonPositiveTail}, {KF_C05_DenseNumExceedsSize}, {KF_C05_FallbackNumExceedsSize},
+              {KF_C05_PanelNumNotCapped}, {KF_C05_ConeCylBucklingMode}, {KF_C05_LoadOnStiffnessless},
+              {KF_C06_RoundedSort}, {KF_C06_SparseNumExceedsSize}, {KF_C06_ReducedDofScatter},
+              {KF_C06_DenseColumnSum}, {KF_C06_SingularMassModes},
+              {KF_C06_RoundedSort, KF_C06_SingularMassModes}>>
 KfVerdict == <<"kf:KF_C05_NonPositiveTail", "kf:KF_C05_DenseNumExceedsSize", "kf:KF_C05_FallbackNumExceedsSize",
                "kf:KF_C05_PanelNumNotCapped", "kf:KF_C05_ConeCylBucklingMode", "kf:KF_C05_LoadOnStiffnessless",
                "kf:KF_C06_RoundedSort", "kf:KF_C06_SparseNumExceedsSize",
-               "kf:KF_C06_ReducedDofScatter", "kf:KF_C06_DenseColumnSum", "kf:KF_C06_SingularMassModes">>
+               "kf:KF_C06_ReducedDofScatter", "kf:KF_C06_DenseColumnSum", "kf:KF_C06_SingularMassModes",
+               "kf:KF_C06_RoundedSort+KF_C06_SingularMassModes">>
 Relevant(api, i) == IF IsLb(api) THEN i <= 6 ELSE i >= 7
-DevSet(i) == IF i = 0 THEN {} ELSE {DevOrder[i]}
+DevSet(i) == IF i = 0 THEN {} ELSE DevOrder[i]
 
 Prob(e) == [n |-> e.p.n, cls |-> e.p.cls, s |-> InRat(e.p.s), zs |-> { e.p.zs[j] : j \in 1..Len(e.p.zs) },
             sp |-> Ev([i \in 1..Len(e.p.sp) |-> InRat(e.p.sp[i])])]
